@@ -194,3 +194,17 @@ Theorem C06_edge_paths_same_variable : forall (V : Type) (vadd vmul : V -> V -> 
   edge_deriv_impl V vadd vmul vzero L row es tv = edge_deriv_spec V vadd vmul vzero val es tv.
 Proof. exact edge_paths_same_variable. Qed.
 Print Assumptions C06_edge_paths_same_variable.
+
+(* the same two headline theorems for the code WITH the two further proposed repairs (fixes/proposed_fix_C06_short.diff,
+   _popwild.diff): a pattern that ends at a sub-circuit denotes nothing, a population inside a dict-form wildcard key is
+   split into one column per unit; the guards not_too_short and no_pop_in_wildcard are gone *)
+Theorem C06_get_nodes_after_proposed_repairs : forall t v pat, wfb t = true -> resolvable_gen allfixes t pat = true ->
+  get_nodes_gen allfixes t v pat = Ok (path_denotation t v pat).
+Proof. exact (get_nodes_correct allfixes). Qed.
+Print Assumptions C06_get_nodes_after_proposed_repairs.
+Theorem C06_run_returns_after_proposed_repairs : forall t L U f reqs, f <> ListFormOld ->
+  wfb t = true -> reqs_resolvable_gen allfixes t reqs = true -> all_found t reqs = true -> reqs <> [] ->
+  covers L U (requested t f reqs) = true ->
+  run_columns_gen allfixes t L f reqs = Ok (map (col_of L) (spec_columns t U f reqs)).
+Proof. exact run_columns_spec_allfixes. Qed.
+Print Assumptions C06_run_returns_after_proposed_repairs.
